@@ -41,7 +41,7 @@ python3 - "$P" "$X" "$OUT" "$SUITE" "$SUITEF" "$DEMO_WITH" "$DEMO_WITHOUT" "$RES
 import sys, json
 p,x,out,suite,suitef,dw,dwo,res=sys.argv[1:9]
 hard=p.startswith("H"); cross=p.startswith("X") or p.startswith("Y"); hard=hard or p.startswith("Z"); pair=p.startswith("W"); p="C"+p[1:]
-json.dump({"property":p,"round":("two cooperating sites: each edit alone harmless, both together break the property for unusual inputs" if pair else "hard mode: size thresholds / conjunctions / long histories" if hard else ("cross-module mode: defect outside the obvious module, route- or entry-point-specific" if cross else "1"))),"variant":x,"source":"independent sub-agent given only the property text and a scratch worktree",
+json.dump({"property":p,"round":("two cooperating sites: each edit alone harmless, both together break the property for unusual inputs" if pair else "hard mode: size thresholds / conjunctions / long histories" if hard else ("cross-module mode: defect outside the obvious module, route- or entry-point-specific" if cross else "1")),"variant":x,"source":"independent sub-agent given only the property text and a scratch worktree",
  "existing_suite_with_change":suite,"existing_suite_with_change_all_features":suitef,
  "demo_with_change":dw.strip(),"demo_without_change":dwo.strip(),"checks_run":res.strip(),
  "needs_to_manifest":"see NOTES.md (written by the sub-agent)"}, open(out+"/meta.json","w"), indent=1)
